@@ -16,6 +16,7 @@ YV = {"PERMIT": "YPermit", "BLOCK": "YBlock", "UNKNOWN": "YOther", "EXECUTE": "Y
 ACTIONS = {"SUCCESS": 0, "BLOCKED": 1, "FAILURE": 2, "SKIPPED": 3, "ERROR": 4, "CIRCUIT_OPEN": 5}
 CIRC = {"closed": 0, "open": 1, "half_open": 2}
 OPC = {"tick": 0, "run": 1, "reset": 2, "clear": 3}
+ZCODE = {None: 0, "EXECUTE": 1, "PERMIT": 2, "BLOCK": 3, "FAILURE": 4}     # anything else: 5
 
 # request outcome classes -> (executor behaviour, assessor behaviour) under the AND gate
 OUTCOME = {
@@ -33,17 +34,31 @@ class AgentDown(Exception):
     pass
 
 
-def is_failure(res):
-    """A request that reached the agents and did not produce a successful gate result."""
-    return res is not None and not res["success"] and not res["cached"] and res["action"] != 5
+def outcome(op, res):
+    """Outcome class of an answered request, by what the agents did (READING of the property):
+       refused | cache_hit | success (result not blocked) | exception (an agent raised) |
+       executor_failure (blocked, executor verdict FAILURE) | block (any other blocked result)."""
+    if res is None:
+        return None
+    if res["action"] == 5:
+        return "refused"
+    if res["cached"]:
+        return "cache_hit"
+    if len(op) == 5:                       # scripted stub agents: the verdicts are known
+        raised = op[2] == "raise" or op[3] == "raise"
+        zverdict = op[2]
+    else:                                  # real agents: read the executor's output off the result
+        raised = res["zout"] is None and res["action"] == 4
+        zverdict = res["zout"]
+    if raised:
+        return "exception"
+    if not res["blocked"]:
+        return "success"
+    return "executor_failure" if zverdict == "FAILURE" else "block"
 
 
-def is_block(res):
-    return res is not None and res["success"] and res["blocked"]
-
-
-def is_success(res):
-    return res is not None and res["success"] and not res["blocked"] and not res["cached"]
+def is_failure(op, res):
+    return outcome(op, res) in ("exception", "executor_failure")
 
 
 class C08(Check):
@@ -54,21 +69,23 @@ class C08(Check):
     N_THOROUGH = 12000
     RULE = ("histories of 1..14 operations (thorough: up to 40) over {run, clock advance, manual reset, clear cache}; "
             "failure_threshold 1..4 (rarely 0/5/-1), recovery timeout in {0,1us,0.5s,2s,10s,60s}, breaker enabled/disabled, "
-            "cache on/off with ttl in {0,1s,timeout,3*timeout,300s}, all six gate logics (AND two thirds of the time); each run picks a "
+            "cache on/off with ttl in {0,1s,timeout,3*timeout,300s}, all six gate logics (AND half of the time); each run picks a "
             "prompt from a small pool (so cache hits occur) and an executor/assessor behaviour in "
             "{EXECUTE,PERMIT,BLOCK,FAILURE,UNKNOWN,raise} x {PERMIT,BLOCK,UNKNOWN,raise}, optionally an executor duration; clock "
             "advances are chosen around the recovery timeout and ttl (timeout-1us, timeout, timeout+1us, 1us, half, double), rarely "
             "negative. Exhaustive part: every sequence of length <= 3 for thresholds 1,2 (quick) / <= 5 for threshold 2, <= 4 for 1,3,4, "
             "plus threshold failures followed by every sequence of length <= 3 for thresholds 3,4 (thorough) "
             "over the 9 symbols {success, intentional block, executor failure, agent exception, cache-hit attempt, advance "
-            "below/at/above the timeout, manual reset}. non-trivial = some request failed or the breaker left CLOSED; distinct by case content")
+            "below/at/above the timeout, manual reset}; and all 6 gate logics x 6 executor x 4 assessor behaviours run twice in CLOSED "
+            "and once as a probe. Outcome classes are read off the agents' verdicts: success = result not blocked, executor failure = "
+            "blocked with executor verdict FAILURE, agent exception, intentional block = any other blocked result. non-trivial = some request failed or the breaker left CLOSED; distinct by case content")
     LEVEL_TEXT = ("Coq theorems over all request histories (lists of run/advance/reset/clear-cache operations, no bound on length), all "
                   "thresholds, timeouts, gate logics, cache settings and clock positions about a hand-written model of "
                   "CoherentFeedForwardLoop.run/_check_circuit/_record_failure/_record_success/cache/reset: never open before the threshold "
                   "is reached since the last clear, open after threshold consecutive failures, complete isolation while open (no agent "
                   "call, no spend, CIRCUIT_OPEN, breaker untouched) until now-last_failure >= timeout, probe admitted afterwards, probe "
-                  "success closes and clears, probe failure re-opens with last_failure := now, successful-but-blocked results never "
-                  "count, a disabled breaker never refuses. The model is tied to the code by evaluating it in Coq on every generated "
+                  "success closes and clears, probe failure re-opens with last_failure := now, blocked results whose executor verdict is not FAILURE "
+                  "never count under any gate logic, a disabled breaker never refuses. The model is tied to the code by evaluating it in Coq on every generated "
                   "history the implementation ran under a virtual clock with stub agents (exhaustive for short histories).")
     LEVEL_NOTE = ("Trusts: Coq kernel+VM; the correspondence harness; time modelled as integer microseconds, one clock reading per "
                   "run() before the agents and one after; agents as scripted stubs; cache eviction above 1000 entries not modelled. "
@@ -80,7 +97,10 @@ class C08(Check):
                "ATP_Store, optionally advances the clock, then returns an ActionProtein or raises); a few monitor-only histories run the "
                "real BioAgents",
                "cache eviction above 1000 entries, the 1000-entry results log, callbacks on_block/on_permit (None) and console output are not modelled",
-               "an 'intentional block' is read, as the property's anchor does, as a gate result with blocked=True and success=True"]
+               "READING: outcome classes are by agent verdicts - success = result not blocked; executor failure = blocked result whose "
+               "executor verdict is FAILURE (any assessor verdict, any gate logic); agent exception = either agent raises; intentional "
+               "block = every other blocked result. Under OR an executor FAILURE with an assessor PERMIT is an unblocked SUCCESS and "
+               "is recorded as a success"]
     ASSUMPTIONS = ["failure_threshold, recovery_timeout, gate_logic, enable_circuit_breaker are not reassigned after construction",
                    "one thread drives the loop (no concurrent run() calls)",
                    "fewer than 1000 distinct prompts per history (cache size limit not reached)"]
@@ -90,7 +110,8 @@ class C08(Check):
         thr = rng.choice([1, 1, 1, 2, 2, 2, 3, 3, 4, 4, 0, 5, -1, 2, 3])
         timeout = rng.choice([2 * US, 2 * US, 10 * US, 10 * US, US // 2, 60 * US, 1, 0])
         ttl = rng.choice([300 * US, 300 * US, timeout, 3 * timeout, US, 0])
-        gate = rng.choice(["and"] * 10 + ["or", "executor_priority", "assessor_priority", "unanimous", "majority"])
+        gate = rng.choice(["and"] * 7 + ["or", "or", "executor_priority", "executor_priority", "assessor_priority",
+                                         "unanimous", "majority"])
         return {"enabled": rng.random() < 0.85, "thr": thr, "timeout_us": timeout,
                 "cache": rng.random() < 0.5, "ttl_us": ttl, "gate": gate, "cost": rng.choice([10, 10, 7, 1])}
 
@@ -98,9 +119,10 @@ class C08(Check):
         r = rng.random()
         if r < profile[0]:
             z, y = rng.choice([("FAILURE", "PERMIT"), ("raise", "PERMIT"), ("EXECUTE", "raise"), ("FAILURE", "raise"),
-                               ("UNKNOWN", "PERMIT"), ("EXECUTE", "UNKNOWN")])
+                               ("FAILURE", "BLOCK"), ("FAILURE", "PERMIT"), ("FAILURE", "UNKNOWN")])
         elif r < profile[0] + profile[1]:
-            z, y = rng.choice([("EXECUTE", "BLOCK"), ("BLOCK", "PERMIT"), ("FAILURE", "BLOCK"), ("BLOCK", "BLOCK")])
+            z, y = rng.choice([("EXECUTE", "BLOCK"), ("BLOCK", "PERMIT"), ("BLOCK", "BLOCK"), ("BLOCK", "BLOCK"),
+                               ("UNKNOWN", "PERMIT"), ("EXECUTE", "UNKNOWN"), ("UNKNOWN", "BLOCK")])
         else:
             z, y = rng.choice([("EXECUTE", "PERMIT"), ("PERMIT", "PERMIT"), ("EXECUTE", "PERMIT")])
         if rng.random() < 0.08:
@@ -181,6 +203,14 @@ class C08(Check):
                 for n in range(1, 4):
                     for w in itertools.product(alphabet, repeat=n):
                         out.append(self._symbolic(thr, "F" * thr + "".join(w)))
+        # every gate logic x every pair of agent behaviours: twice in CLOSED (threshold 2), then as a probe
+        for gate in GATES:
+            for z in list(ZV) + ["raise"]:
+                for y in ["PERMIT", "BLOCK", "UNKNOWN", "raise"]:
+                    ops = [["run", 1, z, y, 0], ["run", 2, z, y, 0], ["tick", 10 * US], ["run", 3, z, y, 0],
+                           ["run", 4, "EXECUTE", "PERMIT", 0]]
+                    out.append({"cfg": {"enabled": True, "thr": 2, "timeout_us": 10 * US, "cache": False, "ttl_us": 300 * US,
+                                        "gate": gate, "cost": 10}, "ops": ops, "word": f"{gate}:{z}/{y}"})
         # the property's own witnesses, always present
         out.append(self._symbolic(2, "FFFFF"))
         out.append(self._symbolic(4, "FXFX-S=S"))
@@ -305,18 +335,20 @@ class C08(Check):
                             else:
                                 zs.next, zs.dur, ys.next = op[2], op[4], op[3]
                                 r = loop.run(f"p{op[1]}")
+                            zo = r.executor_output.action_type if r.executor_output is not None else None
                             res = {"success": bool(r.success), "blocked": bool(r.blocked),
-                                   "action": ACTIONS.get(r.action, 99), "cached": bool(r.cached)}
+                                   "action": ACTIONS.get(r.action, 99), "cached": bool(r.cached), "zout": zo}
                 except Exception as e:  # run() is not supposed to raise
                     exc = type(e).__name__
                 after = snap()
                 row = [OPC[op[0]]]
                 if exc is not None:
-                    row += [-1, 0, 0, 0, 0]
+                    row += [-1, 0, 0, 0, 0, 0]
                 elif res is None:
-                    row += [0, 0, 0, 0, 0]
+                    row += [0, 0, 0, 0, 0, 0]
                 else:
-                    row += [1, int(res["success"]), int(res["blocked"]), res["action"], int(res["cached"])]
+                    row += [1, int(res["success"]), int(res["blocked"]), res["action"], int(res["cached"]),
+                            ZCODE.get(res["zout"], 5)]
                 row += [after["state"], after["fc"], after["sc"],
                         int(after["lf"] is not None), after["lf"] or 0,
                         int(after["ls"] is not None), after["ls"] or 0,
@@ -335,7 +367,7 @@ class C08(Check):
     def coq_case(self, case):
         c = case["cfg"]
         cfg = (f"(mkCfg {cbool(c['enabled'])} {cz(c['thr'])} {cz(c['timeout_us'])} {cbool(c['cache'])} "
-               f"{cz(c['ttl_us'])} {GATES[c['gate']]} {cz(c['cost'])} false)")
+               f"{cz(c['ttl_us'])} {GATES[c['gate']]} {cz(c['cost'])} false false)")
         ops = []
         for op in ([] if case.get("real_agents") else case["ops"]):
             if op[0] == "tick":
@@ -399,7 +431,8 @@ class C08(Check):
                 return Violation("C08/admitted-without-agents", f"{where}: admitted, not a cache hit, yet the executor was not consulted")
             probing = b["state"] in (1, 2)
             gate_state = 2 if probing else b["state"]     # the state in which the agents ran
-            if is_failure(res):
+            oc = outcome(op, res)
+            if oc in ("exception", "executor_failure"):
                 fails_since_clear += 1
                 consecutive += 1
                 if probing and not (a["state"] == 1 and a["lf"] == a["now"] and a["trips"] == b["trips"] + 1):
@@ -407,7 +440,7 @@ class C08(Check):
                 last_fail = a["now"]
             else:
                 consecutive = 0
-                if is_success(res):
+                if oc == "success":
                     if probing:
                         fails_since_clear = 0
                         if not (a["state"] == 0 and a["fc"] == 0):
@@ -415,9 +448,10 @@ class C08(Check):
                     elif a["state"] != 0:
                         return Violation("C08/success-opens", f"{where}: a success in CLOSED left state {a['state']}")
                 else:
-                    # intentional block (blocked-but-successful) or cache hit: not a failure, not a success
+                    # intentional block (blocked, executor verdict not FAILURE, nobody raised) or cache hit:
+                    # not a failure, not a success
                     if (a["fc"], a["trips"], a["lf"], a["state"]) != (b["fc"], b["trips"], b["lf"], gate_state):
-                        sig = "C08/block-counted-as-failure" if is_block(res) else "C08/cache-hit-moves-breaker"
+                        sig = "C08/block-counted-as-failure" if oc == "block" else "C08/cache-hit-moves-breaker"
                         return Violation(sig, f"{where}: answer {res} changed the breaker: failure_count {b['fc']}->{a['fc']} "
                                          f"state {b['state']}->{a['state']} trips {b['trips']}->{a['trips']}")
             # never open before the threshold has been reached since the last clear
@@ -464,7 +498,7 @@ class C08(Check):
         self.extra_cov["real_agent_histories"] = n
 
     def nontrivial(self, case, obs, trace):
-        return any(is_failure(s["res"]) or s["after"]["state"] != 0 for s in trace.get("steps", []))
+        return any(is_failure(s["op"], s["res"]) or s["after"]["state"] != 0 for s in trace.get("steps", []))
 
     def classify(self, case, obs, trace):
         c = case["cfg"]
@@ -477,19 +511,12 @@ class C08(Check):
                 continue
             if res is None:
                 continue
-            if res["action"] == 5:
-                ks.append("out=circuit_open")
-            elif res["cached"]:
-                ks.append("out=cache_hit")
-            elif is_failure(res):
-                ks.append("out=failure" if res["action"] != 4 else "out=error")
-                if len(op) == 5 and "BLOCK" in (op[2], op[3]) and not ({op[2], op[3]} & {"FAILURE", "raise", "UNKNOWN"}):
-                    # e.g. OR gate "Both agents rejected", EXECUTOR_PRIORITY executor BLOCK: success=False
-                    ks.append("note:agent-BLOCK-verdicts-counted-as-failure(gate=%s)" % c["gate"])
-            elif is_block(res):
-                ks.append("out=block")
-            else:
-                ks.append("out=success")
+            oc = outcome(op, res)
+            ks.append("out=" + oc)
+            if oc in ("block", "executor_failure", "exception") and c["gate"] != "and":
+                ks.append(f"out={oc}/gate={c['gate']}")
+            if oc == "executor_failure" and res["success"]:
+                ks.append("executor-failure-behind-assessor-block")
             if a["trips"] > b["trips"]:
                 ks.append("trip-from-" + ["closed", "open", "half_open"][2 if b["state"] in (1, 2) else 0])
             if b["state"] in (1, 2) and a["state"] == 0:
